@@ -13,6 +13,8 @@ CEX = None
 M = __name__
 
 LABELS = ["", "ex", "ż"]
+# namespaces that rdflib binds by default (dcterms, schema, ...) are deliberately absent: a fresh reading Graph keeps its own
+# prefix for them (rdflib's lazy default bindings), which is rdflib's behaviour, not pyjelly's (measured, see DESIGN.md)
 NSIRIS = ["http://a/", "http://b#", "urn:q", "http://ü/ż#", ""]
 ITEMS = {1: [("T", alpha.I_AX, alpha.I_AY, alpha.L_DT1), ("T", alpha.I_BX, alpha.I_URN, alpha.I_CZ)],
          2: [("Q", alpha.I_AX, alpha.I_AY, alpha.L_DT1, alpha.DEF), ("Q", alpha.I_BX, alpha.I_URN, alpha.I_CZ, alpha.I_AX)]}
@@ -36,6 +38,9 @@ def ns(l1: int, i1: int, l2: int, i2: int, nb: int, fs: int) -> bool:
         if nbv == 3:
             binds.append(("", binds[0][1]))   # a third label bound to the FIRST namespace again (its parts are already in the tables)
         items = ITEMS[phys]
+        if P.get("aname0"):
+            # first statement IRI = a declared namespace itself (empty local name): zero deltas right after the declarations
+            items = [(items[0][0], alpha.I_ANAME0) + tuple(items[0][2:])] + list(items[1:])
         want = [norm_item(i) for i in items]
         res = {}
         for on in (True, False):
